@@ -34,9 +34,9 @@ def check(chk: Check) -> None:
                             'text unchanged, no earlier lexer rule can swallow the start of an identifier, strings and '
                             'comments are matched whole and comments emit nothing', floor=4)
     R3 = chk.rule('C18.R3', 'every looked-up name was a NAME token: in all templates the name fields the evaluator looks '
-                            'up hold the text of an identifier token or one of the fixed implicit names', floor=60)
+                            'up hold the text of an identifier token or one of the fixed implicit names', floor=40)
     R4 = chk.rule('C18.R4', 'evaluation looks up only those fields: every access to the scoped names in an eval method or '
-                            'lambda closure is keyed by self.<name field> (or binds a lambda parameter\'s .name)', floor=5)
+                            'lambda closure is keyed by self.<name field> (or binds a lambda parameter\'s .name)', floor=3)
     chk.decided += ['lister: same lexer, exact NAME filter, exhaustive loop (R1)', 'lexer facts about NAME (R2)',
                     'provenance of every looked-up name field in all templates (R3)', 'lookups only through those fields (R4)']
     chk.assumptions += ['reset/feeding of the lexer is C11.R2 (same rule, same evidence)']
